@@ -35,10 +35,11 @@ type Frame struct {
 	Defers []deferred
 	Kind   frameKind
 	// panic unwinding in progress in this frame (running its defers)
-	Unwinding bool
-	Recovered bool
-	Lenient   bool // inside a lenient init
+	Unwinding    bool
+	Recovered    bool
+	Lenient      bool // inside a lenient init
 	pendingPanic *panicState
+	Once         *Ptr // frame is the body of a sync.Once.Do: mark done when it is popped
 }
 
 type panicState struct {
@@ -57,18 +58,18 @@ const (
 )
 
 type G struct {
-	ID      uint32 // canonical id
-	Frames  []*Frame
-	Status  gStatus
-	Pending *Op
-	Granted *Grant // set by the scheduler when the pending op may execute
-	Panic   *panicState
-	AllocN  uint32
-	SpawnN  uint32
-	SymN    uint32
-	Root    *ssa.Function
-	Atomic  int
-	IsMain  bool
+	ID        uint32 // canonical id
+	Frames    []*Frame
+	Status    gStatus
+	Pending   *Op
+	Granted   *Grant // set by the scheduler when the pending op may execute
+	Panic     *panicState
+	AllocN    uint32
+	SpawnN    uint32
+	SymN      uint32
+	Root      *ssa.Function
+	Atomic    int
+	IsMain    bool
 	Announced []ObjKey // RWMutex write locks announced but not yet acquired
 }
 
@@ -89,15 +90,15 @@ type State struct {
 	pcA uint64 // commutative hash of pc
 	pcB uint64
 
-	dec       *decision
-	envFrozen bool
-	forced    int // forced alternative for the next decide(), -1 none
-	forcedV   uint64
+	dec        *decision
+	envFrozen  bool
+	forced     int // forced alternative for the next decide(), -1 none
+	forcedV    uint64
 	hasForcedV bool
-	opaqueN   int
-	nInstr    int
-	nTrans    int
-	mainDone  bool
+	opaqueN    int
+	nInstr     int
+	nTrans     int
+	mainDone   bool
 
 	// model satisfying pc (nil if unknown)
 	model *Model
